@@ -1717,6 +1717,28 @@ class SQLModel:
         sql_right = expr_right.to_near_sql_implementation_(
             db_model=self, using=using_joint, temp_id_source=temp_id_source
         )
+        # an operand without a select list of its own (user SQL, record conversion) emits its own columns
+        # in its own order: select the union's columns from it, or UNION ALL pairs them by position
+        if sql_left.terms is None:
+            operand_name = "concat_rows_left_" + str(temp_id_source[0])
+            temp_id_source[0] = temp_id_source[0] + 1
+            sql_left = data_algebra.near_sql.NearSQLUnaryStep(
+                terms={k: None for k in using_joint},
+                query_name=operand_name,
+                quoted_query_name=self.quote_identifier(operand_name),
+                sub_sql=sql_left.to_bound_near_sql(columns=using_joint.copy()),
+                ops_key=None,
+            )
+        if sql_right.terms is None:
+            operand_name = "concat_rows_right_" + str(temp_id_source[0])
+            temp_id_source[0] = temp_id_source[0] + 1
+            sql_right = data_algebra.near_sql.NearSQLUnaryStep(
+                terms={k: None for k in using_joint},
+                query_name=operand_name,
+                quoted_query_name=self.quote_identifier(operand_name),
+                sub_sql=sql_right.to_bound_near_sql(columns=using_joint.copy()),
+                ops_key=None,
+            )
         view_name = "concat_rows_" + str(temp_id_source[0])
         temp_id_source[0] = temp_id_source[0] + 1
         near_sql = data_algebra.near_sql.NearSQLBinaryStep(
